@@ -130,3 +130,25 @@ def op_cond_of_block(facts, fn, b):
 
 def input_is(v):
     return lambda a: a[0] == 'is' and a[1] == '<input>' and a[2] == v
+
+
+def base_local(fn, op, depth=0):
+    """the local a (reference) operand ultimately designates, following `_x = &P` / `_x = move _y` chains"""
+    if op is None or op[0] == 'k':
+        return None
+    pl = op[1]
+    loc = pl[0]
+    while depth < 10:
+        depth += 1
+        d = fn.single_def(loc)
+        if d is None or d[1] == 'T':
+            return loc
+        node = fn.def_node(d)
+        rv = node['rv']
+        if rv['r'] in ('ref', 'rawptr'):
+            loc = rv['p'][0]
+        elif rv['r'] in ('use', 'cast') and rv['o'][0] != 'k':
+            loc = rv['o'][1][0]
+        else:
+            return loc
+    return loc
